@@ -31,7 +31,7 @@ static void on_remesh(int kind, int stage, cell*, unsigned, unsigned, unsigned) 
 }
 static void on_division(int, const cell*, const cell*, const cell*) { if (g_cnt) g_cnt->divisions++; }
 static void on_pair(const cell*, const node*, const cell*, const face*) { if (g_cnt) g_cnt->contact_pairs++; }
-static double g_limit = 1e300;
+static double g_limit = 1e300; static double g_drift[3] = {0, 0, 0};
 static void on_phase(int tag, const std::vector<cell_ptr>* lst) {
     if (!g_cnt || tag < 0 || tag > 10) return; g_cnt->phases[tag]++;
     if (tag == 8 && tis::blown_up(*lst, g_limit)) throw tis::unstable_run();
@@ -41,12 +41,18 @@ static void on_phase(int tag, const std::vector<cell_ptr>* lst) {
     // a cell leaves the population wherever the list gets shorter between two phase boundaries of one iteration (divisions only lengthen it)
     if (tag >= 3) { if (lst->size() < g_cnt->last_count) g_cnt->removals += (long)(g_cnt->last_count - lst->size()); }
     if (tag >= 2) g_cnt->last_count = lst->size();
+    // family 10: the whole tissue drifts (every node shifted by the same small vector at the end of each iteration, as in a flow): the box of the
+    // contact grid moves through several voxels while its voxel counts mostly stay the same
+    if (tag == 10 && (g_drift[0] != 0 || g_drift[1] != 0 || g_drift[2] != 0)) for (auto& cp : *lst) for (node& n : cell_tester::nodes(*cp)) if (n.is_used()) cell_tester::pos(n).reset(n.pos().dx() + g_drift[0], n.pos().dy() + g_drift[1], n.pos().dz() + g_drift[2]);
     if (tag == 10) { g_cnt->max_cells = std::max<long>(g_cnt->max_cells, (long)lst->size()); g_cnt->min_cells = std::min<long>(g_cnt->min_cells, (long)lst->size()); }
 }
 
 static tis::Scenario scenario_of(const Args& a, long i, Rng& g) {
-    int what = a.geti("what", -1); if (what < 0) what = (int)(i % 10);   // 0-6 named families, 7 polygonal cubes (initial triangulation), 8 cubes with a degenerate face in contact
+    int what = a.geti("what", -1); if (what < 0) what = (int)(i % 11);   // 0-6 named families, 7 polygonal cubes (initial triangulation), 8 cubes with a degenerate face in contact
     int iters = (int)a.geti("iterations", 0); if (iters <= 0) iters = g.range((int)a.geti("min_iterations", 40), (int)a.geti("max_iterations", 120));
+    g_drift[0] = g_drift[1] = g_drift[2] = 0;
+    if (what == 10) { tis::Scenario s = tis::make_scenario(g, 1, iters, false); s.family = "drifting_adhering_grid"; const double step = g.uni(0.2, 0.6) * s.P.contact_cutoff_adhesion_; double d[3] = {g.normal(), g.normal(), g.normal()}; const double n = std::sqrt(d[0] * d[0] + d[1] * d[1] + d[2] * d[2]);
+        for (int k = 0; k < 3; k++) g_drift[k] = step * d[k] / n; if (g.coin(0.4)) { g_drift[0] = g_drift[1] = 0; g_drift[2] = (g.coin() ? 1 : -1) * step; } return s; }
     return tis::make_scenario(g, what, iters, a.geti("allow_triangulation", 1) != 0);
 }
 
